@@ -556,6 +556,12 @@ where
 
         // Guard against local host and assert rp_id is not part of the public suffix list
         if let ControlFlow::Break(res) = self.assert_valid_rp_id(effective_domain) {
+            // The localhost exemption is for the literal host `localhost` only: an origin that merely
+            // has `localhost` as a parent domain may not claim it as its RP ID, for such an origin it
+            // is a public suffix like any other single label.
+            if res.is_ok() && origin.domain() != Some("localhost") {
+                return Err(WebauthnError::InvalidRpId);
+            }
             return res;
         }
 
